@@ -40,7 +40,7 @@ SHAPES_QUICK = {
     "coef": ["one", "two", "half", "pname", "pcomp"],
     "derived": ["none", "one", "chain-ooo", "ratedep"],
     "ia": [0, 1],
-    "ct": ["none", "cond", "time", "rootsq"],
+    "ct": ["none", "cond", "condexpr", "time", "rootsq"],
 }
 SHAPES_THOROUGH = {
     "nvars": [1, 2, 3],
